@@ -323,7 +323,8 @@ class DirectCollocation(SamplingMethod):
                 for k in [-1]+list(range(self.N)):
                     target = self.eval_at_control(stage, var, k)
                     value_k = value
-                    if target.numel()*(self.N)==value.numel() or target.numel()*(self.N+1)==value.numel():
+                    # One column per control interval (or node); a value of the symbol's own shape is a constant
+                    if value.shape!=target.shape and (target.numel()*(self.N)==value.numel() or target.numel()*(self.N+1)==value.numel()):
                         value_k = value[:,k]
                     try:
                         #print(target,value_k)
